@@ -1039,9 +1039,24 @@ impl ImplementationRule for JoinRule {
 
         // Hash join and Merge join are available for equi-joins
         if join.is_equi_join() {
-            let keys = join.extract_equi_keys();
-            if !keys.is_empty() {
-                let left_cols = join.left_schema.num_columns();
+            let left_cols = join.left_schema.num_columns();
+            // Each pair must relate a left column to a right column, whichever way round it was
+            // written (`ON b.id = a.id`); a pair on one side only is not a join key, and then the
+            // nested loop (which evaluates the whole condition) is the only correct choice.
+            let raw_keys = join.extract_equi_keys();
+            let keys: Vec<(usize, usize)> = raw_keys
+                .iter()
+                .filter_map(|&(a, b)| {
+                    if a < left_cols && b >= left_cols {
+                        Some((a, b))
+                    } else if b < left_cols && a >= left_cols {
+                        Some((b, a))
+                    } else {
+                        None
+                    }
+                })
+                .collect();
+            if !keys.is_empty() && keys.len() == raw_keys.len() {
 
                 // Create key expressions for left and right sides
                 // Note: extract_equi_keys returns indices in the combined output schema
